@@ -83,7 +83,7 @@ class Lin:
         if v[0] == "ref":
             # a reference to a location: its pointee's entry value (slices handed to decoders are immutable)
             return atom(("len", ("sym", ("init", v[1], v[2]))))
-        if t and t[0] == "call" and t[1].endswith("::index") and len(t[2]) == 2:
+        if t and t[0] == "call" and (t[1].endswith("::index") or t[1].endswith("::index_mut")) and len(t[2]) == 2:
             base, rng = t[2]
             rng = self.expand(rng)
             if rng[0] == "agg":
